@@ -22,7 +22,7 @@ CHECKS = {
                 note="As C01. Offsets are concrete in generated code, so bounds are decided exactly per project."),
     "C04": dict(engine=E1, cat="translation_validation", sec="6 C04",
                 technique="symbolic execution of compiled Fex and GetElementAbund + SMT: element- and charge-weighted sums of ydot are identically zero for enumerated balanced networks, and the library's element totals are the count-weighted sums, with weights from a hand-written composition table",
-                text="For exhaustively enumerated balanced reactions over six molecule pools (ions, both electron spellings, o/p labels, isotopologues, ice/gas pairs, grains in several charge states, multiply charged anions, formulas repeating an element symbol), API-built and written in each of the five input formats, z3 shows sum_s c_e(s)*ydot_s != 0 unsat for each element and for charge, for all y and k, on all back-ends; GetElementAbund(ab, e) != sum_s c_e(s)*ab_s is unsat for all ab.",
+                text="For exhaustively enumerated balanced reactions over seven molecule pools (ions, both electron spellings, o/p labels, isotopologues, ice/gas pairs, grains in several charge states, multiply charged anions, formulas repeating an element symbol, names beginning like a pseudo-element symbol such as Mg / oH2 / c-C3H), API-built and written in each of the five input formats, z3 shows sum_s c_e(s)*ydot_s != 0 unsat for each element and for charge, for all y and k, on all back-ends; GetElementAbund(ab, e) != sum_s c_e(s)*ab_s is unsat for all ab; every reaction as held by the network after reading a balanced input is itself balanced by the same table (concrete side obligation).",
                 note="As C01. Compositions come from the corpus' own table (vf/corpus_balanced.py), not from the generator's name parser."),
     "C05": dict(engine=E1, cat="translation_validation", sec="6 C05",
                 technique="symbolic execution of the compiled EvalRates (floating literals lifted to exact-valued externs so nothing is constant-folded) + SMT equivalence with each database's rate law, libm as uninterpreted functions; native libm replay",
@@ -30,19 +30,19 @@ CHECKS = {
                 note="Coefficients are enumerated (sign classes, literal shapes), physical parameters are symbolic. libm as UFs with exact values at 0/1. Self-shielding special cases and Leeds types 5/15-19 (emitted as 0.0 by design) are outside the claim."),
     "C06": dict(engine=E1, cat="translation_validation", sec="6 C06",
                 technique="symbolic execution of the compiled EvalRates with sentinel-initialised k: the store guard of every k[i] is extracted and SMT-compared with Tmin<=T<Tmax for all T; callers' zero-initialisation read from the compiled Fex/Jac",
-                text="For every window shape (none, lower, upper, both, zero, negative, equal bounds; KROME spellings .LE. > d-exponents NONE) in all six formats, z3 shows for all Tgas that k[i] is assigned iff the window predicate holds; adjacent piecewise windows have exactly one active member at every T including boundaries; Fex/Jac hand EvalRates a zero-initialised array.",
-                note="Temperature is a real-valued symbol (boundaries are ordinary values). Reactions overridden by a rate modifier are excluded by design (C13)."),
+                text="For every window shape (none, lower, upper, both, zero, negative, equal bounds; KROME spellings .LE. > d-exponents NONE) in all six formats, z3 shows for all Tgas that k[i] is assigned iff the window predicate holds; adjacent piecewise windows have exactly one active member at every T including boundaries; the same for grain-surface and gas-grain processes of Leeds (hh93) and UCLCHEM (rr07x) networks carrying windows; Fex/Jac hand EvalRates a zero-initialised array.",
+                note="Temperature is a real-valued symbol (boundaries are ordinary values). Reactions overridden by a rate modifier are excluded by design (C13); UCLCHEM accretion lines declare [0, 30) by the reader's documented rule."),
     "C07": dict(engine=E2, cat="exploration", sec="6 C07",
                 technique="decode(encode(m)) == m: CrossHair (z3) drives symbolic selectors over abstract reactions, independent per-format encoders write the line/file, the real parsers decode it (untraced); every selection of every condition explored",
                 text="For each of the six formats: reactant and product multisets (marker tokens never become species; names at the column-width limit), alpha/beta/gamma for signed/exponent/integer literals, temperature window, index and the reaction type of every format code (KIDA out-of-range formula -> 3, UCLCHEM FREEZE window rule); files with blank, whitespace-only, comment and directive lines at every position yield one reaction per data line in file order.",
                 note="Selector enumeration (29 conditions x 512 selections), not symbolic strings; the encoders are the format definitions."),
     "C08": dict(engine=E2, cat="exploration", sec="6 C08",
                 technique="CrossHair (z3) drives symbolic selectors over compositions; each selected composition is spelled as a name, parsed by the real Species (untraced) and compared field by field with the composition it was built from; all paths of every condition exhausted",
-                text="All ordered pairs and triples of clash-prone symbols (H/He, C/Cl/Ca, S/Si, N/Na/Ni, F/Fe...), every default element with counts and 6 charge states, surface prefixes '#'/'G', ortho/para labels, the UCLCHEM upper-case list with replacement (renamed names), electrons, grains, H2*, c-/l- isomers: element counts, charge, phase, gas counterpart, mass number and is_atom are exactly those of the composition; names with foreign characters are rejected.",
+                text="All ordered pairs and triples of clash-prone symbols (H/He, C/Cl/Ca, S/Si, N/Na/Ni, F/Fe...), every default element with counts and 6 charge states, surface prefixes '#'/'G', ortho/para labels, the UCLCHEM upper-case list with replacement (renamed names), electrons, grains (default and custom symbols with group numbers in every charge state), H2*, c-/l- isomers: element counts, charge, phase, gas counterpart, mass number and is_atom are exactly those of the composition; names with foreign characters are rejected.",
                 note="Selector enumeration by the solver, not symbolic strings (CrossHair's regex model is unreliable on this tokenizer; stated in DESIGN.md). Mass numbers from an independent table."),
     "C09": dict(engine=E2, cat="exploration", sec="6 C09",
                 technique="CrossHair-selected name pairs on the real Species.__eq__/__hash__/alias + per-project z3 Distinct/range queries over the index tables read back from every generated artefact (macros through the real preprocessor, Python constants via ast, TOML summary, Enzo patch header)",
-                text="For all ordered pairs of 40 names: equality, hash equality and alias equality coincide with species identity and every alias is a legal identifier; for four rendered projects the species and element macros are bijections onto 0..N-1 and agree with constant_indexes.py, the [summary] written by `naunet render`, the A_ table of the Enzo patch (rendered by a separate interpreter run under another string-hash seed) and the per-species fields of every other patch file.",
+                text="For all ordered pairs of 40 names: equality, hash equality and alias equality coincide with species identity and every alias is a legal identifier; for four rendered projects the species and element macros are bijections onto 0..N-1 and agree with constant_indexes.py, the counts and per-slot lists of pynaunet_model/constants.py, the [summary] written by `naunet render`, the A_ table of the Enzo patch (rendered by a separate interpreter run under another string-hash seed) and the per-species fields of every other patch file.",
                 note="Per-project obligations are ground facts (stated as such); names and identity classes are a fixed table."),
     "C14": dict(engine=E2, cat="exploration", sec="6 C14",
                 technique="CrossHair symbolic execution (z3) of the real Network add/remove/allowed-species/source-sink logic on stub species with symbolic integer identities (all paths), plus solver-selected operation sequences on real reactions compared with an explicit model; the extend command is driven for real and compared with the same model",
@@ -66,7 +66,7 @@ CHECKS = {
                 note="Mass numbers and binding energies are read independently; physical constants as the project defines them; GetMantleDens opaque; constants inside libm calls are identified up to double rounding (the generator prints quotients such as E_b/A as one literal)."),
     "C12": dict(engine=E1, cat="translation_validation", sec="6 C12",
                 technique="the real Fortran->C translator's output is compiled (exact literals) and executed symbolically; z3 compares it, for all variable values, with the term an independent Fortran-semantics reader builds from the input text (libm uninterpreted); sat answers replayed natively with real libm",
-                text="For expressions derived from the translator's own grammar to depth 3 (+ - * / ** parentheses, exp/sqrt/log, integer/real/d-exponent literals, KROME variables, user @common variables, n(idx_X)) and every rate expression of the bundled KROME networks: accepted expressions are value-equal to Fortran semantics and each n(idx_X) resolves to that species' abundance slot, or the expression is rejected at generation time.",
+                text="For expressions derived from the translator's own grammar to depth 3 (+ - * / ** parentheses, exp/sqrt/log, integer/real/d-exponent literals, KROME variables, user @common variables, n(idx_X)) a deterministic family of powers whose exponent or base is an identifier followed by a signed number, and every rate expression of the bundled KROME networks: accepted expressions are value-equal to Fortran semantics and each n(idx_X) resolves to that species' abundance slot, or the expression is rejected at generation time.",
                 note="Chained ** (left-associated) and multi-character / electron idx names are recorded known findings. Fortran semantics per the standard; integer**negative integer and hand-written expressions cover the trigonometric / hyperbolic intrinsics and their inverses and the d-prefixed specific names."),
     "C13": dict(engine=E1, cat="translation_validation", sec="6 C13",
                 technique="differential symbolic execution: compiled EvalRates/Fex of the project with modifiers vs. the plain project vs. the modifier text (exact arithmetic reader), SMT equivalence per reaction and species; API path and init->TOML->render path compared",
@@ -78,11 +78,11 @@ CHECKS = {
                 note="End-to-end cases are enumerated option classes; the option parser itself is additionally executed by CrossHair on symbolic strings of <=4 characters; prompts are not exercised; `ism` needs an external file."),
     "C18": dict(engine=E1, cat="translation_validation", sec="6 C18",
                 technique="ground field-wise comparison of two native write/read cycles + differential symbolic execution: compiled EvalRates/Fex of the direct rendering vs. Network.export re-rendered by `naunet render` in the exported directory, SMT equivalence for all parameter values, native replay of every sat answer",
-                text="For networks read from every input format (encoder-written files with every gas-phase type code, bundled fixtures, an API network) two write/read cycles in the native format reproduce reactants/products, window, type, index and coefficients to the printed precision; the exported project re-rendered from its own files has term-equivalent rate coefficients and derivatives or is refused.",
+                text="For networks read from every input format (encoder-written files with every gas-phase type code, bundled fixtures, an API network) two write/read cycles in the native format reproduce reactants/products, window, type, index and coefficients to the printed precision; the exported project re-rendered from its own files has term-equivalent rate coefficients and derivatives or is refused, also when the directory already held the export of an earlier version of the network.",
                 note="Seven (format, type code) pairs where export silently changes the law are recorded in known_findings.json; a Leeds ice network cannot be read back natively (known finding); KROME reactions carry text rates and are refused on re-render (allowed). One back-end (cvode dense)."),
     "C19": dict(engine=E1, cat="model_checking", sec="6 C19",
                 technique="bounded model checking of the compiled Solve/HandleError IR with a nondeterministic integrator stub (symbolic flags and partial times, merged states) + one SMT-discharged inductive step per recovery level (loop back edge cut); scripted-mock native replay",
-                text="Every fault sequence over the recovery ladder is covered by (base) Solve up to HandleError establishes the invariant, (step) from any invariant state one level either returns SUCCESS with exactly y0+dt, returns FAIL, or re-establishes the invariant, with every flag an arbitrary integer and every partial time an arbitrary real; plus end-to-end monolithic queries and concrete-flag/symbolic-time scripts through all five levels; odeint Observer and Solve are decided on their compiled IR.",
+                text="Every fault sequence over the recovery ladder is covered by (base) Solve up to HandleError establishes the invariant, (step) from any invariant state one level either returns SUCCESS with exactly y0+dt, returns FAIL, or re-establishes the invariant, with every flag an arbitrary integer and every partial time an arbitrary real; plus end-to-end monolithic queries and concrete-flag/symbolic-time scripts through all five levels, on each of which a failing return implies that the entry state is what the error record prints; odeint Observer and Solve are decided on their compiled IR.",
                 note="Integrator contract is an assumption (state = exact solution at the returned time); pow/log10 are uninterpreted with round-trip and monotonicity axioms; 2-equation project (the ladder does not depend on the network); the return value of every scripted run must equal an independent model of the documented ladder; odeint: the observer handed to the integrator carries the current step budget in the first and in a second Solve call; cusparse Solve is outside the encoded set."),
 }
 
